@@ -17,7 +17,7 @@ TOL = 1e-10
 def plan(tier):
     n = 400 if tier == 'quick' else 4000
     return dict(n_cases=n, shards=16, min_nontrivial=n // 3,
-                min_tags={'clause:bay_total_mass': n // 14, 'clause:blade1d_mass': n // 14, 'clause:entrywise': n // 3, 'clause:total_mass': n // 12, 'clause:invariance': n // 12,
+                min_tags={'clause:stiffener_mass': n // 16, 'clause:bay_total_mass': n // 16, 'clause:blade1d_mass': n // 16, 'clause:entrywise': n // 3, 'clause:total_mass': n // 12, 'clause:invariance': n // 12,
                           'offset:nonzero': n // 6},
                 watchdog_s=1800 if tier == 'quick' else 10000,
                 rule='panels as in C02 (all four models, sub-intervals, placement), mu over six decades, offsets of both signs up to +-3t '
@@ -104,8 +104,49 @@ def case_bay_mass(rng, tier):
     return c
 
 
+def case_stiff2d(rng, tier):
+    """mass contribution of a 2-D stiffener (blade or T): the kinetic energy of its own panels, i.e. the sum of the panels' own
+    mass matrices (each judged entry-wise by the other modes) at the amplitude ranges the class documents - the blade's base on
+    the skin amplitudes and its flange on the private block; the T stiffener's base on the private block and its flange after
+    the base"""
+    kind = str(rng.choice(['blade2d', 't2d']))
+    d = gen.bay_desc(rng, mmax=5, nstiff=(1, 1), kinds=(kind,), ncuts=int(rng.integers(1, 3)))
+    c = Case({'mode': 'stiff2d', 'bay': d})
+    c.tag('clause:stiffener_mass', 'stiff:' + kind)
+    try:
+        bay = gen.build_bay(d)
+        size = bay.get_size()
+        bay.calc_kM(silent=True)
+        st = (bay.bladestiff2ds if kind == 'blade2d' else bay.tstiff2ds)[0]
+        ns = 3 * bay.m * bay.n
+        st.calc_kM(size=size, row0=ns, col0=ns, silent=True, finalize=True)
+        Ms = st.kM.toarray()
+        ref = np.zeros((size, size))
+        if kind == 'blade2d':
+            if st.base is not None:
+                ref += st.base.calc_kM(size=size, row0=0, col0=0, silent=True).toarray()
+            ref += st.flange.calc_kM(size=size, row0=ns, col0=ns, silent=True).toarray()
+            nfl = st.flange.get_size(); nb = 0
+        else:
+            nb = st.base.get_size(); nfl = st.flange.get_size()
+            ref += st.base.calc_kM(size=size, row0=ns, col0=ns, silent=True).toarray()
+            ref += st.flange.calc_kM(size=size, row0=ns + nb, col0=ns + nb, silent=True).toarray()
+    except Exception as e:
+        return c.reject('%s in stiffener calc_kM: %s' % (type(e).__name__, str(e)[:100]))
+    c.hit('stiffener.calc_kM')
+    c.expect('bay size = skin + base + flange amplitudes of the stiffener', size == ns + nb + nfl, '%d vs %d' % (size, ns + nb + nfl))
+    sc = np.abs(ref) + 1e-6 * np.abs(ref).max() + 1e-300
+    c.judge('2-D stiffener kM = sum of its panels\' own kM at the documented amplitude ranges', float((np.abs(Ms - ref) / sc).max()), 1e-12,
+            data={'kind': kind, 'base_terms': [getattr(st.base, 'm', None), getattr(st.base, 'n', None)] if st.base is not None else None,
+                  'flange_terms': [st.flange.m, st.flange.n]})
+    c.nontrivial = True
+    return c
+
+
 def run_case(rng, tier, idx):
-    mode = str(rng.choice(['entry', 'entry', 'entry', 'mass', 'invariance', 'blade1d', 'bay_mass']))
+    mode = str(rng.choice(['entry', 'entry', 'entry', 'mass', 'invariance', 'blade1d', 'bay_mass', 'stiff2d']))
+    if mode == 'stiff2d':
+        return case_stiff2d(rng, tier)
     if mode == 'blade1d':
         return case_blade1d(rng, tier)
     if mode == 'bay_mass':
